@@ -609,8 +609,9 @@ func clientTimingAttempt(c timingCase) bool {
 		}
 		cl, err = startClient(s.addr(), "/stream", cliOpts{Proto: proto, ReadTimeout: c.Timeout, InitialUDP: c.Timeout, CheckPeriod: checkPeriod})
 		if err != nil {
-			run.Violation("client-udp/start-failed", "[timing] "+err.Error(), wit)
-			return true
+			// requests run under the scaled ReadTimeout: a slow start is no verdict about binding
+			run.Count("timing:client-start-failed", 1)
+			return false
 		}
 		for m := 0; m < 2; m++ {
 			cports[m], _ = s.clientPorts(m)
@@ -624,8 +625,9 @@ func clientTimingAttempt(c timingCase) bool {
 		defer ts.Close()
 		cl, err = startClient(ts.Addr(), "/stream", cliOpts{Proto: "udp", ReadTimeout: c.Timeout, InitialUDP: c.Timeout, CheckPeriod: checkPeriod})
 		if err != nil {
-			run.Violation("client-udp/start-failed", "[timing] "+err.Error(), wit)
-			return true
+			// requests run under the scaled ReadTimeout: a slow start is no verdict about binding
+			run.Count("timing:client-start-failed", 1)
+			return false
 		}
 		for m := 0; m < 2; m++ {
 			cports[m], sports[m], _, _ = cl.ports(m)
